@@ -69,11 +69,21 @@ def has_yield(stmts):
     return False
 
 
-def havoc_like(I, name, v):
+class Retype(Exception):
+    """a loop variable havoc'd as an integer (its value before the loop was one) is assigned a real in the loop body:
+    the job is restarted with that variable havoc'd as a real"""
+
+
+HAVOC_REAL = set()      # (function qualname, loop ordinal, variable) -> havoc as Real; filled by Retype restarts (per job process)
+
+
+def havoc_like(I, name, v, key=None):
     ctx = I.ctx
     if isinstance(v, bool) or (is_sym(v) and is_boollike(v)):
         return ctx.fresh_bool(name)
     if is_intlike(v):
+        if key is not None and key in HAVOC_REAL:
+            return ctx.fresh_real(name)
         return ctx.fresh_int(name)
     if is_reallike(v):
         return ctx.fresh_real(name)
@@ -104,6 +114,14 @@ def havoc_like(I, name, v):
     if v is None:
         raise Undecided(f"havoc of {name} (None before the loop)")
     raise Undecided(f"havoc of {name}: {v!r}")
+
+
+def _check_havoc_types(I, env, fname, ordinal, int_havoc):
+    for name in int_havoc:
+        v = env.vars.get(name)
+        if v is not None and is_reallike(v) and not is_intlike(v):
+            HAVOC_REAL.add((fname, ordinal, name))
+            raise Retype(name)
 
 
 def find_invariant(I, env, ordinal):
@@ -165,11 +183,14 @@ def exec_for(I, node, env):
     choice = ctx.choose(2, f"loop{ordinal}")
     # --- havoc
     custom = ctr.loop_havoc.get(ordinal, {}) if ctr else {}
+    int_havoc = []
     for name in sorted(mod):
         if name in custom:
             env.vars[name] = custom[name](I, state_ns(I, env, 0, count))
         elif name in env.vars:
-            env.vars[name] = havoc_like(I, name, env.vars[name])
+            env.vars[name] = havoc_like(I, name, env.vars[name], key=(fname, ordinal, name))
+            if is_intlike(env.vars[name]):
+                int_havoc.append(name)
     if yields:
         ctx.ycount = ctx.fresh_int("ycount")
         ctx.assume(ctx.ycount >= 0)
@@ -188,6 +209,7 @@ def exec_for(I, node, env):
             pass
         except BreakSig:
             raise Undecided("break inside a loop cut by an invariant")
+        _check_havoc_types(I, env, fname, ordinal, int_havoc)
         ctx.prove(f"inv-pres:{fname}#loop{ordinal}", "inv-pres", inv(state_ns(I, env, simp(k + 1), count)))
         if ctr is not None and ctr.events and ordinal in ctr.events:
             evs = ctx.trace[trace_mark:]
@@ -238,11 +260,14 @@ def exec_while(I, node, env):
     mod = assigned_names(node.body)
     choice = ctx.choose(2, f"loop{ordinal}")
     custom = ctr.loop_havoc.get(ordinal, {}) if ctr else {}
+    int_havoc = []
     for name in sorted(mod):
         if name in custom:
             env.vars[name] = custom[name](I, state_ns(I, env, 0, None))
         elif name in env.vars:
-            env.vars[name] = havoc_like(I, name, env.vars[name])
+            env.vars[name] = havoc_like(I, name, env.vars[name], key=(fname, ordinal, name))
+            if is_intlike(env.vars[name]):
+                int_havoc.append(name)
     ctx.assume(inv(state_ns(I, env, 0, None)))
     c = I.as_bool(I.eval(node.test, env))
     if choice == 0:
@@ -253,6 +278,7 @@ def exec_while(I, node, env):
             pass
         except BreakSig:
             raise Undecided("break inside a loop cut by an invariant")
+        _check_havoc_types(I, env, fname, ordinal, int_havoc)
         ctx.prove(f"inv-pres:{fname}#loop{ordinal}", "inv-pres", inv(state_ns(I, env, 0, None)))
         raise PathEnd("loop cut (preservation path)")
     else:
